@@ -38,7 +38,10 @@ Record ctxremap := {
   cx_basic : remap;
   cx_sw_header : str;      (* "message_text" *)
   cx_sw_column : str;      (* "type" *)
-  cx_sw_table : remap      (* row type -> field *)
+  cx_sw_table : remap;     (* row type -> field *)
+  cx_sw_strip : bool       (* is the row-type cell stripped (str.strip) before the lookup?  PROBED by the
+                              translator: false on a tree that looks the RAW cell up (finding
+                              short-header-with-padded-type-cell), true on the repaired tree *)
 }.
 
 Record rowmodel := { rm_ty : ty; rm_ctx : option ctxremap }.
@@ -301,9 +304,9 @@ Fixpoint dec_ty (fuel : nat) (x : sexp) : option ty :=
 Definition dec_ctx (x : sexp) : option (option ctxremap) :=
   match x with
   | L [] => Some None
-  | L [b; h; c; t] =>
+  | L [b; h; c; t; A s] =>
     match dec_remap b, dec_str h, dec_str c, dec_remap t with
-    | Some b', Some h', Some c', Some t' => Some (Some (Build_ctxremap b' h' c' t'))
+    | Some b', Some h', Some c', Some t' => Some (Some (Build_ctxremap b' h' c' t' (negb (N.eqb s 0))))
     | _, _, _, _ => None
     end
   | _ => None
